@@ -58,7 +58,7 @@ def apply(rec, op, k):
 
 def obs_of(rec, n):
     o = c13.observe(rec, n)
-    return dict(seq=o["seq"], feats=o["feats"], cls=type(rec).__name__)
+    return dict(seq=o["seq"], feats=o["feats"], la=o["la"], cls=type(rec).__name__)
 
 
 def m_apply(m, op, k, n):
@@ -66,11 +66,12 @@ def m_apply(m, op, k, n):
     if op == "rc":
         feats = [[f[0], f[1], f[2], c13.canon_den(rm.revcomp_denoted(f[3], n), n)] for f in m["feats"]]
         feats.sort(key=lambda x: (x[1], x[0]))
-        return dict(seq=rm.revcomp(m["seq"]), feats=feats, cls="CircularRecord")
+        return dict(seq=rm.revcomp(m["seq"]), feats=feats, la={k: v[::-1] for k, v in m["la"].items()}, cls="CircularRecord")
     r = k if op == ">>" else -k
     feats = [[f[0], f[1], f[2], c13.canon_den(rm.rotate_denoted(f[3], n, r), n)] for f in m["feats"]]
     feats.sort(key=lambda x: (x[1], x[0]))
-    return dict(seq=rm.rot_right(m["seq"], r), feats=feats, cls="CircularRecord")
+    return dict(seq=rm.rot_right(m["seq"], r), feats=feats, la={k: c13.rot_list(v, r) if not isinstance(v, str) else rm.rot_right(v, r) for k, v in m["la"].items()},
+                cls="CircularRecord")
 
 
 def compare(st, sub, scn, obs, exp):
@@ -79,6 +80,9 @@ def compare(st, sub, scn, obs, exp):
         return False
     if obs["seq"] != exp["seq"]:
         st.violation(sub, "sequence", scn, exp["seq"], obs["seq"])
+        return False
+    if exp.get("la") is not None and obs.get("la") != exp["la"]:
+        st.violation(sub, "letter-annotations", scn, {k: str(v)[:60] for k, v in exp["la"].items()}, {k: str(v)[:60] for k, v in (obs.get("la") or {}).items()})
         return False
     if obs["feats"] != exp["feats"]:
         o = {(f[1], f[0]): f for f in obs["feats"]}
@@ -138,7 +142,7 @@ def run_unit(unit, st, tier):
                 scn = dict(n=n, table_slice=[s, nsl], history=hist, op="rc-flag", k=0, flag=flag, value=val)
                 try:
                     out = rec.reverse_complement(**{flag: val})
-                    compare(st, "flags", scn, obs_of(out, n), m_apply(m, "rc", 0, n))
+                    compare(st, "flags", scn, obs_of(out, n), dict(m_apply(m, "rc", 0, n), la=None) if flag == "letter_annotations" else m_apply(m, "rc", 0, n))
                 except Exception as e:
                     st.violation("flags", "raises-" + type(e).__name__, scn, "a record", "{}: {}".format(type(e).__name__, e))
                 st.scenario("rc-flag", None, nodes=0)
@@ -209,7 +213,7 @@ def replay(scn, sub, st):
     elif op == "rc-flag":
         try:
             out = rec.reverse_complement(**{scn["flag"]: scn["value"]})
-            compare(st, "flags", scn, obs_of(out, n), m_apply(m, "rc", 0, n))
+            compare(st, "flags", scn, obs_of(out, n), dict(m_apply(m, "rc", 0, n), la=None) if scn["flag"] == "letter_annotations" else m_apply(m, "rc", 0, n))
         except Exception as e:
             st.violation(sub, "raises-" + type(e).__name__, scn, "a record", str(e))
     elif op == "laws":
